@@ -188,6 +188,12 @@ class Check(PropertyCheck):
             idx = next((i for i, o in enumerate(impl.heap) if o is s), None)
             if idx is not None:
                 cur_ids.append(idx)
+        # the subscriber list itself: subscription order as implied by the events alone
+        want_order = list(getattr(impl, "sub_order", cur_ids))
+        if cur_ids != want_order:
+            res.append(("subscriber-order", f"after `{line}` dispatcher.subscribers holds observers {cur_ids}, "
+                        f"subscription order is {want_order}"))
+            cur_ids = want_order
         for i in list(ctx["expected_hist"]):
             if i not in cur_ids:
                 # unsubscribed: nothing is claimed while it is away, but it keeps its record
